@@ -1,0 +1,23 @@
+//go:build verif
+
+package node
+
+// Accessors for the verification harness (/verif). Built only with -tags verif.
+
+// VerifStore returns the KVStore behind a kv state machine (nil for other state machines).
+func VerifStore(sm StateMachine) *KVStore {
+	if k, ok := sm.(*kvStoreSM); ok {
+		return k.store
+	}
+	return nil
+}
+
+// VerifStateMachine returns the state machine of a node.
+func (nd *KVNode) VerifStateMachine() StateMachine {
+	return nd.sm
+}
+
+// VerifKVStore returns the store of a node.
+func (nd *KVNode) VerifKVStore() *KVStore {
+	return nd.store
+}
